@@ -364,7 +364,17 @@ pub fn check(tape: &[u32], st: &mut Stats) -> Result<(), String> {
             pauses += 1;
             break;
         }
+        // known finding: when a call ends - for a reason other than MCR-off - right after the instruction that
+        // cleared the MCR (step_in over the OS HALT routine's STI, or a breakpoint matching at that boundary),
+        // the halt leaves no trace; the next run-style call restarts the machine and runs the halt loop again
         let (rb, pause) = ref_call(&mut b.sim, s.real, bps_eff, call, false, &mut budget);
+        if !matches!(pause, Pause::McrOff | Pause::Halt | Pause::Error) && step_in_cleared_mcr(&b.sim, b.sim.pc.wrapping_sub(1)) {
+            st.class("call-ended-right-after-mcr-clear");
+            if known("C13", SIG_STEPIN_MCR) {
+                st.excluded_known += 1;
+                return Ok(());
+            }
+        }
         if budget == 0 {
             st.inconclusive += 1;
             st.class("budget-exhausted");
@@ -419,6 +429,21 @@ pub fn check(tape: &[u32], st: &mut Stats) -> Result<(), String> {
         }
     }
     Ok(())
+}
+
+pub const SIG_STEPIN_MCR: &str = "step-in-over-mcr-clear";
+
+/// Did the instruction at `pc_before` store a word with bit 15 clear to the MCR port?
+fn step_in_cleared_mcr(s: &Simulator, pc_before: u16) -> bool {
+    use crate::model::isa::{dec, MInstr};
+    let w = s.mem[pc_before].get();
+    match dec(w) {
+        Ok(MInstr::Sti { sr, off }) => {
+            let cell = pc_before.wrapping_add(1).wrapping_add(off as u16);
+            s.mem[cell].get() == 0xFFFE && s.reg_file[reg(sr as usize)].get() & 0x8000 == 0 && s.pc == pc_before.wrapping_add(1)
+        }
+        _ => false,
+    }
 }
 
 fn pause_matches(a: &Simulator, p: Pause) -> bool {
